@@ -695,10 +695,30 @@ func (ctx *actorContext) tryRestarted() {
 	ctx.system.Logger().Debug("ActorSystem", log.String("event", "restarted"), log.String("type", reflect.TypeOf(ctx.actor).String()), log.String("actor", ctx.ref.GetLogicalAddress()), log.Int("child", len(ctx.children)))
 
 	ctx.deliverySystemMessage(ctx.ref, ctx.ref, ctx.ref, nil, onResumeMailbox)
-	ctx.deliverySystemMessage(ctx.ref, ctx.ref, ctx.ref, nil, onRestarted)
-	ctx.deliverySystemMessage(ctx.ref, ctx.ref, ctx.parentRef, nil, onLaunch)
-
 	ctx.setExpireDuration()
+
+	// the fresh instance starts its life here: OnRestarted and OnLaunch are handled before anything that was already queued
+	// when the restart completed (a racing terminate or restart request, a termination notice), which would otherwise be
+	// the first thing the new instance sees
+	// (a failure inside OnRestarted does not keep OnLaunch from being handled, as when the two were separate messages;
+	// it is reported once both have run)
+	var failure any
+	for _, start := range []func(){
+		func() { ctx.processMessage(ctx.ref, ctx.ref, onRestarted, true) },
+		func() { ctx.processMessage(ctx.parentRef, ctx.ref, onLaunch, true) },
+	} {
+		func() {
+			defer func() {
+				if reason := recover(); reason != nil && failure == nil {
+					failure = reason
+				}
+			}()
+			start()
+		}()
+	}
+	if failure != nil {
+		panic(failure)
+	}
 }
 
 func (ctx *actorContext) onTerminate(gracefully bool) {
